@@ -20,6 +20,7 @@ import (
 	"runtime/debug"
 	"runtime/pprof"
 	"sort"
+	"strconv"
 	"strings"
 	"sync"
 	"time"
@@ -522,7 +523,7 @@ func resolvePending(all bool) {
 
 func main() {
 	c = vlib.New("C07", "exploration")
-	debug.SetGCPercent(400)
+	if g := os.Getenv("VERIF_GOGC"); g != "" { n, _ := strconv.Atoi(g); debug.SetGCPercent(n) } else { debug.SetGCPercent(400) }
 	if pf := os.Getenv("VERIF_PPROF"); pf != "" {
 		f, _ := os.Create(pf)
 		pprof.StartCPUProfile(f)
@@ -535,9 +536,9 @@ func main() {
 		replay(fixtures)
 		return
 	}
-	spineTx := 1
+	spineTx, repeatMax := 1, 1
 	if c.Thorough() {
-		spineTx = 2
+		spineTx, repeatMax = 2, 2
 	}
 	var plans []*fxPlan
 	for i := range fixtures {
@@ -549,7 +550,7 @@ func main() {
 				continue
 			}
 		}
-		p, err := newPlan(&fixtures[i], spineTx, !c.Thorough() && strings.HasPrefix(fixtures[i].Name, "synth-"))
+		p, err := newPlan(&fixtures[i], spineTx, repeatMax, !c.Thorough() && strings.HasPrefix(fixtures[i].Name, "synth-"))
 		if err != nil {
 			c.Internal("%v", err)
 		}
@@ -580,6 +581,7 @@ func main() {
 	c.Set("d1_per_fixture", st.PerFixtureD1)
 	c.Set("d2_per_fixture", st.PerFixtureD2)
 	c.Set("d2_spine_transactions", spineTx)
+	c.Set("d2_spine_repeated_items_per_tx", repeatMax)
 	c.Set("d2_pairs", map[int]string{1: "pairs with at least one top-level container", 2: "all spine pairs"}[d2mode])
 	mu.Lock()
 	c.Set("counters", counters)
